@@ -153,7 +153,7 @@ theorem splitOnce_none (x : Nat) (s : Bytes) (h : ∀ c ∈ s, c ≠ x) : splitO
     have := ih (fun d hd => h d (by simp [hd]))
     simp [splitOnce, hc, this]
 
-theorem splitOnce_append (x : Nat) (a b : Bytes) (h : ∀ c ∈ a, c ≠ x) :
+theorem ae_splitOnce_append (x : Nat) (a b : Bytes) (h : ∀ c ∈ a, c ≠ x) :
     splitOnce x (a ++ x :: b) = some (a, b) := by
   induction a with
   | nil => simp [splitOnce]
@@ -334,7 +334,7 @@ theorem gzipStep_render (st : QState) (e : AeElem) (h : e.wf) :
     have hs : splitOnce cSemi e.render = some (e.owsBefore ++ e.coding ++ e.owsBeforeSemi,
         e.owsAfterSemi ++ (113 :: 61 :: q.render) ++ e.owsAfter) := by
       rw [hr]
-      apply splitOnce_append
+      apply ae_splitOnce_append
       intro c hc
       simp only [List.mem_append] at hc
       rcases hc with (hc | hc) | hc
